@@ -130,6 +130,68 @@ func TestVerifC02Host(t *testing.T) {
 				out.Case(l)
 				out.Cover("host.stream_directions")
 			}
+			// read-deadline polling: the reader sets a short read deadline and lets it expire while
+			// the writer is idle (the writer is held back until the reader has SEEN the timeout
+			// error, so the outcome does not depend on timing), then extends the deadline and goes
+			// on reading; the writer writes and half-closes.  A read deadline that expired is
+			// recoverable: every byte written afterwards must still arrive (kind 6 monitor), and
+			// so must what the former reader then writes the other way.
+			{
+				x, err := h1.NewStream(context.Background(), h2.ID(), "/verif/c02")
+				if err != nil {
+					t.Fatal(err)
+				}
+				if _, err := x.Write([]byte{0xEE}); err != nil {
+					t.Fatal(err)
+				}
+				y := <-acc
+				one := make([]byte, 1)
+				if _, err := y.Read(one); err != nil || one[0] != 0xEE {
+					t.Fatalf("marker: %v", err)
+				}
+				dl := time.Now().Add(60 * time.Second)
+				x.SetDeadline(dl)
+				y.SetDeadline(dl)
+				// a marker the other way as well, read under the long deadline: the opener's lazy
+				// protocol negotiation is complete before any short deadline is set
+				if _, err := y.Write([]byte{0xEF}); err != nil {
+					t.Fatalf("marker back: %v", err)
+				}
+				if _, err := x.Read(one); err != nil || one[0] != 0xEF {
+					t.Fatalf("marker back: %v", err)
+				}
+				nw := 1 + r.Intn(3)
+				wl := make([]int, nw)
+				for j := range wl {
+					wl[j] = 1 + r.Intn(3000)
+					if r.Chance(1, 3) {
+						wl[j] = 1 + r.Intn(150000)
+					}
+				}
+				bl := []int{1 + r.Intn(8192)}
+				wl2 := []int{1 + r.Intn(70000), r.Intn(100)}
+				bl2 := []int{1 + r.Intn(50000)}
+				base, base2 := r.Intn(1<<19), r.Intn(1<<19)
+				// which side polls: the accepting side or the opening side
+				wr, rd := network.Stream(x), network.Stream(y)
+				if r.Chance(1, 2) {
+					wr, rd = y, x
+				}
+				seen := make(chan struct{})
+				var once sync.Once
+				gw := &c02GateWriter{w: wr, gate: seen}
+				l1 := verifh.StreamCaseRetry(6, cfg*1000+800, base, wl, bl, gw, wr.CloseWrite, rd, 50*time.Second,
+					func() { rd.SetReadDeadline(time.Now().Add(30 * time.Millisecond)) },
+					func() {
+						rd.SetReadDeadline(time.Now().Add(60 * time.Second))
+						once.Do(func() { close(seen); out.Cover("host.read_deadline_expired_then_reading_goes_on") })
+					})
+				l2 := verifh.StreamCase(6, cfg*1000+801, base2, wl2, bl2, rd, rd.CloseWrite, wr, 50*time.Second)
+				out.Case(l1)
+				out.Case(l2)
+				x.Close()
+				y.Close()
+			}
 			// half-close with nothing written, then further reads: the opener (which by now
 			// knows the remote's protocols from identify, i.e. opens optimistically) closes
 			// its write side at once; the responder must still be reached and its bytes read
@@ -183,6 +245,21 @@ func (p *c02PauseWriter) Write(b []byte) (int, error) {
 	}
 	p.i++
 	return p.w.Write(b)
+}
+
+// c02GateWriter holds back every Write until gate is closed (bounded, so that a reader
+// that never meets its timeout cannot hang the harness).
+type c02GateWriter struct {
+	w    io.Writer
+	gate <-chan struct{}
+}
+
+func (g *c02GateWriter) Write(b []byte) (int, error) {
+	select {
+	case <-g.gate:
+	case <-time.After(30 * time.Second):
+	}
+	return g.w.Write(b)
 }
 
 // c02Swarm: a swarm with the TCP transport, Noise and yamux (what libp2p.New wires up,
